@@ -720,8 +720,8 @@ def long_scenarios(rng, tier, prop):
     """Histories far longer than any bounded model or small random input reaches: hundreds of detections in one run (thousands in the
     thorough tier, beyond 10^4 once), with the observers that hold per-detection resources (files, descriptors, ids)."""
     out = []
-    sizes = [400, 700] if tier == "quick" else [400, 1500, 3000, 10100]
-    for n in sizes:
+    sizes = [400, 1000] if tier == "quick" else [400, 1000, 1500, 3000, 10100]
+    for k_, n in enumerate(sizes):
         if prop == "C14":
             kinds, stop = ["rec", "regsave"], rng.randint(n, 6 * n)
         elif prop == "C13":
@@ -734,7 +734,8 @@ def long_scenarios(rng, tier, prop):
         while len(pat) < 2 * n:
             pat += [True] * rng.choice([1, 1, 2]) + [False] * rng.choice([1, 1, 2])
         out.append(dict(pat=pat, B=rng.choice([1, 2]), sr=100, silence=0.03, sw=rng.choice([1, 2]), ch=1, p=(1, 2, 0, False, False), obs=kinds,
-                        saver=(prop == "C13" and n < 5000), cache_blocks=rng.choice([0, 3]), stop_after=stop, tail=1, seed=rng.random(), style="random",
+                        saver=(prop == "C13" and n < 5000), cache_blocks=rng.choice([0, 3]), stop_after=stop, tail=1, seed=rng.random(),
+                        style=["random", "slow_observers", "prio", "slow_source", "random"][k_ % 5],     # slow observers: backlogs of hundreds of messages
                         validator="custom", max_steps=80 * n + 10000, long=True))
     return out
 
